@@ -16,6 +16,12 @@ pub struct PoolIndex {
     pub cross_texts: Vec<Vec<u32>>,
     /// per entry: is the expression placeholder-sensitive
     pub entry_sensitive: Vec<bool>,
+    /// failing entries grouped by kind of failure (evaluator, Err variant / panic, message prefix): picking a kind
+    /// first and an entry second keeps rare failure kinds from drowning among the common ones
+    pub err_kinds: Vec<Vec<u32>>,
+    pub panic_kinds: Vec<Vec<u32>>,
+    /// Ok entries per evaluator
+    pub ok_by_ev: Vec<Vec<u32>>,
 }
 
 pub fn index_pool(pool: &mut Pool) -> PoolIndex {
@@ -27,6 +33,22 @@ pub fn index_pool(pool: &mut Pool) -> PoolIndex {
             Outcome::Err(..) => ix.err.push(i as u32),
             Outcome::Panic(_) => ix.panic.push(i as u32),
         }
+    }
+    {
+        use std::collections::BTreeMap;
+        let mut ek: BTreeMap<(u8, String), Vec<u32>> = BTreeMap::new();
+        let mut pk: BTreeMap<(u8, String), Vec<u32>> = BTreeMap::new();
+        ix.ok_by_ev = vec![Vec::new(); 5];
+        for (i, e) in pool.entries.iter().enumerate() {
+            let key = |m: &str| -> String { m.chars().filter(|c| !c.is_ascii_digit()).take(28).collect() };
+            match &e.oracle {
+                Outcome::Ok(_) => ix.ok_by_ev[e.call.ev as usize].push(i as u32),
+                Outcome::Err(v, m) => ek.entry((e.call.ev as u8, format!("{} {}", v, key(m)))).or_default().push(i as u32),
+                Outcome::Panic(m) => pk.entry((e.call.ev as u8, key(m))).or_default().push(i as u32),
+            }
+        }
+        ix.err_kinds = ek.into_values().collect();
+        ix.panic_kinds = pk.into_values().collect();
     }
     for (id, es) in pool.by_expr.iter().enumerate() {
         if es.len() >= 2 {
@@ -177,10 +199,31 @@ pub fn make_spec(pool: &Pool, ix: &PoolIndex, seed: u64, kind: RunKind, allow_in
                 }
             }
             let k = r.unit();
-            if f2 && k < 0.08 {
-                calls.push(*r.pick(&ix.panic));
-            } else if f1 && k < 0.30 {
-                calls.push(*r.pick(&ix.err));
+            if (f2 && k < 0.08) || (f1 && k < 0.30) {
+                // a failing call: half of the time uniform over failing entries, half of the time uniform over
+                // failure KINDS; then, often, an "aftershock": the next call on this thread goes to the same
+                // evaluator (state a failing call leaves behind is most likely met by its own evaluator)
+                let panic = f2 && k < 0.08;
+                let e = if panic {
+                    if r.chance(0.5) {
+                        *r.pick(&ix.panic)
+                    } else {
+                        let kind = r.below(ix.panic_kinds.len());
+                        *r.pick(&ix.panic_kinds[kind])
+                    }
+                } else if r.chance(0.5) {
+                    *r.pick(&ix.err)
+                } else {
+                    let kind = r.below(ix.err_kinds.len());
+                    *r.pick(&ix.err_kinds[kind])
+                };
+                calls.push(e);
+                if calls.len() < ncalls && r.chance(0.6) {
+                    let ev = pool.entries[e as usize].call.ev as usize;
+                    if !ix.ok_by_ev[ev].is_empty() {
+                        calls.push(*r.pick(&ix.ok_by_ev[ev]));
+                    }
+                }
             } else if !ix.ok.is_empty() {
                 calls.push(*r.pick(&ix.ok));
             } else {
